@@ -40,7 +40,8 @@ def wsgi_answer(rr, p, v, pat_of):
         a['allow'] = c['allow'].split(',') if c['allow'] else []
     elif c['status'] == 200 and c['h'] is not None:
         a.update(k='ok', h=c['h'], route=pat_of.get(c['h'], []), params=c['kw'],
-                 hooks=[[len(prefix) - 1, pat] for pat, prefix in c['fired']])
+                 # (a hook is handed the matched prefix of the request PATH, one leading slash: anything else shows as position -1)
+                 hooks=[[len(prefix) - 1 if prefix == [47] + p[:len(prefix) - 1] else -1, pat] for pat, prefix in c['fired']])
     else:
         a['k'] = 'status%s' % c['status']
     return a
